@@ -62,7 +62,8 @@ Inductive opcase :=
 | CGcxsJoin (ptrs : list (list Z * Z))
 | CUncompress (indptr : list Z)
 | CTranspose (R C : Z) (rc cc : list Z)
-| CCanon (ndim : Z) (ps : list (Z * Z)).     (* user-supplied (linear position, data) in the given order *)   (* t of the case = dtype of x.indices *)
+| CCanon (ndim : Z) (ps : list (Z * Z))
+| CDiag (a1 a2 : list Z) (offset : Z).     (* user-supplied (linear position, data) in the given order *)   (* t of the case = dtype of x.indices *)
 
 Definition one_row (r : res tarr) : iout :=
   match r with Ok a => IRows (tdt a) [tv a] | Raise e => IExc e end.
@@ -109,6 +110,7 @@ Definition mout (d : dty) (c : opcase) : iout :=
       end
   | CUncompress p => let a := m_uncompress d p in IRows (tdt a) [tv a]
   | CCanon ndim ps => IPairs (m_canon d ndim ps)
+  | CDiag a1 a2 off => IMask (m_diagonal_mask d a1 a2 off)
   | CTranspose R C rc cc =>
       match m_transpose d R C rc cc with
       | Ok (i, p) => IRows (tdt p) [tv i; tv p]
@@ -167,7 +169,7 @@ Definition tag_op (c : op_case) : Z :=
   let ctor := match oc with
     | CConcat _ _ => 1 | CFlip _ _ => 2 | CRoll _ _ _ => 3 | CRollT _ => 4 | CGetitem _ _ _ _ _ => 5
     | CReshape _ _ => 6 | CReduce _ _ => 7 | CTri _ _ _ _ _ => 8 | CKron _ => 9 | CPad _ => 10
-    | CStack _ => 11 | CCtor _ _ _ => 12 | CFromCoo _ _ _ _ => 13 | CGcxsJoin _ => 14 | CUncompress _ => 15 | CTranspose _ _ _ _ => 16 | CCanon _ _ => 17 end in
+    | CStack _ => 11 | CCtor _ _ _ => 12 | CFromCoo _ _ _ _ => 13 | CGcxsJoin _ => 14 | CUncompress _ => 15 | CTranspose _ _ _ _ => 16 | CCanon _ _ => 17 | CDiag _ _ _ => 18 end in
   let mw := mout (DInt t) oc in
   100 * ctor + (if negb (failed_clause t oc =? 0) then 2 else if is_value_error mw then 1 else 0).
 
@@ -183,7 +185,9 @@ Inductive primcase :=
 | PAstype (t : ity) (a : list Z)                       (* np.array(a).astype(t) *)
 | PCanStore (t : ity) (z : Z)
 | PMinScalar (z : Z)
-| PFullType (z : Z).                                   (* np.full(1, z).dtype *)
+| PFullType (z : Z)
+| PNbArrSc (op : Z) (t kt : ity) (a : list Z) (k : Z)   (* numba: a[i] <op> kt(k) *)
+| PNbArrArr (op : Z) (t1 t2 : ity) (a b : list Z).      (* numba: a[i] <op> b[i] *)                                   (* np.full(1, z).dtype *)
 
 Definition zop (op : Z) : Z -> Z -> Z :=
   if op =? 0 then Z.add else if op =? 1 then Z.sub else if op =? 2 then Z.mul
@@ -200,6 +204,8 @@ Definition pout (c : primcase) : iout :=
   | PCanStore t z => IMask [s_can_store (DInt t) z]
   | PMinScalar z => match min_scalar_type z with Some t => IRows (DInt t) [] | None => IExc OtherError end
   | PFullType z => IRows (DInt (np_int_type z)) []
+  | PNbArrSc op t kt a k => let r := nb_arr_sc (zop op) (mkT (DInt t) a) kt k in IRows (tdt r) [tv r]
+  | PNbArrArr op t1 t2 a b => let r := nb_arr_arr (zop op) (mkT (DInt t1) a) (mkT (DInt t2) b) in IRows (tdt r) [tv r]
   end.
 
 (* float64 results carry exact integer values in the sweep, except for division / remainder,
@@ -210,7 +216,8 @@ Definition judge_prim (c : primcase * iout) : Z :=
   match m, impl with
   | IRows DFloat _, IRows DFloat _ =>
       match pc with
-      | PArrArr op _ _ _ _ | PArrNp op _ _ _ _ => if (op <? 3) && negb (vals_eqb m impl) then 1 else 0
+      | PArrArr op _ _ _ _ | PArrNp op _ _ _ _ | PNbArrSc op _ _ _ _ | PNbArrArr op _ _ _ _ =>
+          if (op <? 3) && negb (vals_eqb m impl) then 1 else 0
       | _ => 0
       end
   | _, _ => if out_eqb impl m then 0 else 1
